@@ -74,6 +74,13 @@ def jobs(prop, tier):
                     SS("sync_faults_sim", 3, 40, 60)]
         return [SM("sync_faults"), SM("sync_faults_sc"), SM("sync_faults_late"), SE("sync_faults_edge", 2, rate=0.05),
                 SE("sync_faults_sc_edge", 2, rate=0.05), SE("sync_faults_late_edge", 2, rate=0.05), SS("sync_faults_sim", 3, 800, 80)]
+    if prop == "C08":
+        f = dict(dump_module="OrdaSyncFaultDump.tla")
+        if q:
+            return [dict(SE("sync_db_edge", 2, rate=0.08), **f), dict(SE("sync_db_sc_edge", 2, rate=0.03), **f),
+                    dict(SS("sync_db_sim", 3, 10, 60), **f)]
+        return [dict(SM("sync_db2"), module="OrdaSyncFault.tla"), dict(SE("sync_db_edge", 2), **f),
+                dict(SE("sync_db_sc_edge", 2), **f), dict(SS("sync_db_sim", 3, 800, 80), **f)]
     if prop == "C04":
         if q:
             return [E("list_edge3", "list", 3), E("list_edgeb", "list", 2), E("list_edge", "list", 2, rate=0.25), S("list_sim", "list", 3, 80, 40)]
